@@ -14,6 +14,7 @@ import FerretVerif.Drv.Cfg
 import FerretVerif.Drv.Mut
 import FerretVerif.Drv.Lexer
 import FerretVerif.Drv.Diag
+import FerretVerif.Drv.Visibility
 
 open FerretVerif
 
@@ -72,6 +73,7 @@ def main (args : List String) : IO UInt32 := do
   | ["lex"] => eachLine cmdLex; return 0
   | ["diag-bag"] => eachLine cmdDiagBag; return 0
   | ["diag-sort"] => eachLine cmdDiagSort; return 0
+  | ["is-exported"] => eachLine cmdIsExported; return 0
   | ["sched"] => eachLine cmdSched; return 0
   | ["toml-fmt"] => eachLine cmdTomlFmt; return 0
   | ["toml-parseval"] => eachLine cmdTomlParseVal; return 0
